@@ -366,6 +366,34 @@ def hier_build(s, variant, skip):
             drive(la, lambda: Constant(b, 'cla', 1, la))
             drive(mn, lambda: And2(b, 'and', la, a, mn))
         D.Box(s, 'gate', {'a': a}, {'mn': mn}, bodyn)
+    if variant == 'owned':
+        # wires that do NOT belong to the parent of the blocks using them: (i) a block that creates its own output-port wire,
+        # (ii) a wire moved into a grouping block with reparent(), (iii) a wire of the top level handed to a block two levels down
+        own = {}
+
+        def bodyo(b):
+            ow = b.wire('ow', 2)                                 # created inside, then exported
+            own['ow'] = ow
+            drive(ow, lambda: mkbuf(b, 'bow', a, ow))
+        blk_o = D.Box(s, 'owner', {'a': a}, {}, bodyo)
+        blk_o.addOut('ow', own['ow'])
+        rd = s.wire('rd', 2)
+        drive(rd, lambda: Not(s, 'nrd', own['ow'], rd))
+        grp = py4hw.Logic(s, 'grp')
+        mv = s.wire('mv', 2)
+        mv.reparent(grp)
+        drive(mv, lambda: Constant(s, 'cmv', 1, mv))
+        rm = s.wire('rm', 2)
+        drive(rm, lambda: mkbuf(s, 'brm', mv, rm))
+        deep = s.wire('deep', 2)
+
+        def bodyd(b):
+            def inner(b2):
+                drive(deep, lambda: Not(b2, 'nd', a, deep))       # the top-level wire 'deep' is driven two levels down
+            D.Box(b, 'in2', {'a': a}, {'deep': deep}, inner)
+        D.Box(s, 'outer2', {'a': a}, {'deep': deep}, bodyd)
+        rdeep = s.wire('rdeep', 2)
+        drive(rdeep, lambda: mkbuf(s, 'brd', deep, rdeep))
     if variant == 'scope':
         Probe(s, 'probe', z)                                   # z is read only by a leaf that is not a primitive (no sink is registered)
     drive(o, lambda: mkbuf(s, 'bo', m, o))                       # o is attached to no port when this is left out
@@ -544,7 +572,7 @@ def tasks_for(tier):
                   {'template': 'flat', 'first': f}))
     for names in ((7, '7'), ('7', 7), (1, '1'), ('a', 'a '), ('A', 'a'), (0, '0')):
         t.append(('children named %r and %r' % names, oddname_task, {'names': names}))
-    for v in ('plain', 'nested', 'scope', 'twins', 'samename'):
+    for v in ('plain', 'nested', 'scope', 'twins', 'samename', 'owned'):
         t.append(('integrity of a structural hierarchy (%s), one removed driver at a symbolic position' % v, hier_task, {'variant': v}))
     for drv in list(DRIVERS)[1:]:
         t.append(('construction API, template flat, one operation, drivers are %s' % drv, construct_task, {'template': 'flat', 'first': None, 'driver': drv}))
